@@ -18,7 +18,7 @@ import time
 import numpy as np
 from .common import patched as common_patched
 
-MODULES = ['dassh.reactor', 'dassh.region_rodded', 'dassh.material']
+MODULES = ['dassh.reactor', 'dassh.region_rodded', 'dassh.material', 'dassh.__main__', 'dassh.read_input']
 PROPERTY = 'C16'
 FUNCTIONS = ['dassh.reactor:Reactor.__init__ and every function reachable from it with an input-derived argument '
              '(frame contract readonly(dassh_input.data); list in the evidence)',
@@ -193,11 +193,120 @@ tracker_reference.cname = 'RoddedRegion._update_coolant_int_params/tracker'
 tracker_reference.run_kw = dict(check_div=False, max_paths=400)
 
 
+def schedule(S, cfg):
+    """real DASSH_Input.check_parallel followed by the real __main__.run_dassh with a ghost process pool and a
+    recording worker: whatever the user asked for (parallel on / off, any worker count), every time point i is
+    handed to the SAME worker function exactly once with the same input object, the same arguments, its own index
+    and its own directory <path>/timestep_<i+1> (none for a single time point); a pool is used only for several time
+    points and more than one worker, gets the requested number of workers, and every asynchronous result is awaited
+    (a failing worker is not lost). Together with the frame contract readonly(input) and the fresh-file contract
+    this makes the outputs of a time point independent of the schedule."""
+    import multiprocessing
+    import dassh
+    from dassh import __main__ as dm
+    from dassh import read_input
+    n = cfg['timepoints']
+    want_parallel = cfg['parallel']
+    ncpu = cfg['n_cpu']
+    if ncpu == 'sym':
+        ncpu = S.int('n_cpu', 1, 64)
+
+    class Inp:
+        pass
+    inp = Inp()
+    inp.timepoints = n
+    inp.path = '/ghost/case'
+    inp.data = {'Setup': {'parallel': want_parallel, 'n_cpu': ncpu}}
+    inp.log = lambda *a, **k: None
+    read_input.DASSH_Input.check_parallel(inp)
+    eff_parallel = inp.data['Setup']['parallel']
+    calls, pools = [], []
+
+    def worker(dassh_inp, args, timestep, wdir, link=None):
+        calls.append(('serial', dassh_inp, args, timestep, wdir, link))
+
+    class Handle:
+        def __init__(self):
+            self.got = False
+
+        def get(self):
+            self.got = True
+
+    class Pool:
+        def __init__(self, processes=None):
+            self.processes, self.handles, self.closed = processes, [], False
+            pools.append(self)
+
+        def apply_async(self, fn, args=(), kwds=None):
+            calls.append(('async', fn) + tuple(args))
+            self.handles.append(Handle())
+            return self.handles[-1]
+
+        def terminate(self):
+            self.closed = True
+
+        def close(self):
+            self.closed = True
+
+        def join(self):
+            pass
+    rx_args = {'no_power_calc': True, 'verbose': False, 'save_reactor': False}
+    with common_patched((dm, '_run_dassh', worker), (multiprocessing, 'Pool', Pool),
+                        (multiprocessing, 'cpu_count', lambda: 16)):
+        dm.run_dassh(inp, rx_args)
+    # the request is honoured only where it makes sense
+    if want_parallel and n > 1:
+        S.holds('schedule.parallel_iff_more_than_one_worker', eff_parallel == (not (ncpu == 1)))
+    else:
+        S.holds('schedule.serial', eff_parallel is False)
+    S.holds('schedule.one_call_per_time_point', len(calls) == n)
+    seen_dirs = []
+    for i in range(n):
+        mine = [c for c in calls if (c[4] if c[0] == 'async' else c[3]) == i]
+        S.holds(f'schedule.time_point_once[{i}]', len(mine) == 1)
+        if len(mine) != 1:
+            continue
+        c = mine[0]
+        if c[0] == 'async':
+            fn, a_inp, a_args, a_i, a_dir = c[1], c[2], c[3], c[4], c[5]
+            S.holds(f'schedule.same_worker_function[{i}]', fn is worker)
+        else:
+            a_inp, a_args, a_i, a_dir = c[1], c[2], c[3], c[4]
+            S.holds(f'schedule.no_link[{i}]', c[5] is None)
+        S.holds(f'schedule.same_input_object[{i}]', a_inp is inp)
+        S.holds(f'schedule.same_arguments[{i}]', a_args is rx_args and a_args == {'no_power_calc': True, 'verbose': False,
+                                                                                 'save_reactor': False})
+        S.holds(f'schedule.own_directory[{i}]', a_dir == (os.path.join(inp.path, f'timestep_{i + 1}') if n > 1 else None))
+        seen_dirs.append(a_dir)
+        S.holds(f'schedule.mode[{i}]', (c[0] == 'async') == bool(eff_parallel))
+    S.holds('schedule.directories_distinct', len(set(seen_dirs)) == len(seen_dirs))
+    if eff_parallel:
+        S.holds('schedule.one_pool', len(pools) == 1)
+        if len(pools) == 1:
+            if cfg['n_cpu'] is None:
+                S.holds('schedule.pool_size_default', pools[0].processes == min(16, n))
+            else:
+                S.eq('schedule.pool_size_as_requested', pools[0].processes, ncpu)
+            S.holds('schedule.every_result_awaited', all(h.got for h in pools[0].handles) and len(pools[0].handles) == n)
+            S.holds('schedule.pool_released', pools[0].closed)
+    else:
+        S.holds('schedule.no_pool', not pools)
+    S.holds('canary.schedule_never_parallel', not eff_parallel or n == 1, canary=bool(want_parallel and n > 1 and cfg['n_cpu'] != 1))
+
+
+schedule.cname = '__main__.run_dassh/schedule'
+schedule.run_kw = dict(check_div=False)
+
+
 def configs(tier):
     out = [(dump_files_fresh, dict(flags=[k], bypass=True)) for k in DUMP_FLAGS]
     out.append((dump_files_fresh, dict(flags=list(DUMP_FLAGS), bypass=True)))
     out.append((dump_files_fresh, dict(flags=['coolant', 'pressure_drop'], bypass=False)))
     out += [(tracker_reference, dict(forced=True)), (tracker_reference, dict(forced=False))]
+    for n in (1, 2, 3, 4):
+        out += [(schedule, dict(timepoints=n, parallel=False, n_cpu=None)),
+                (schedule, dict(timepoints=n, parallel=True, n_cpu=None)),
+                (schedule, dict(timepoints=n, parallel=True, n_cpu='sym'))]
     return out
 
 
